@@ -177,38 +177,74 @@ def rawItems (toks : List String) : Option (List Item) :=
       else if t == "C" then some (.seqEnd :: l)
       else none) (some [])
 
-/-- C16 (second half) on the implementation: whenever the full decoder accepts the stream — every `Decode` succeeds and
-the sequences it decoded cover the stream exactly — the raw decoder accepts it, reports as many sequences and the
-same ordered series of definitions (header byte, architecture, global number, field and developer field
-definitions) and data messages (header byte, hence kind and local message number). -/
+/-- the segments the implementation reported, rebuilt from its itemised answer and the stream: header, data and CRC
+segments take their bytes from the stream at the running offset (`H<len>`, `M<header>.<len>`, `C`), definition
+segments carry their own bytes (`D<hex>`) -/
+def rebuildSegs (bs : Bytes) (toks : List String) : Option (List Fit.Raw.Seg × List (Nat × Bytes)) :=
+  let rec go : List String → Nat → List Fit.Raw.Seg → List (Nat × Bytes) → Option (List Fit.Raw.Seg × List (Nat × Bytes))
+    | [], _, acc, chk => some (acc.reverse, chk)
+    | t :: ts, off, acc, chk =>
+      if t.startsWith "H" then
+        match (t.drop 1).toString.toNat? with
+        | some n => go ts (off + n) (⟨Fit.Gen.Reader.rawFlagFileHeader, Fit.FitFormat.slice bs off n⟩ :: acc) chk
+        | none => none
+      else if t.startsWith "D" then
+        match unhex (t.drop 1).toString with
+        | some d => go ts (off + d.length) (⟨Fit.Gen.Reader.rawFlagMesgDef, d⟩ :: acc) ((off, d) :: chk)
+        | none => none
+      else if t.startsWith "M" then
+        match ((t.drop 1).toString.splitOn ".").mapM String.toNat? with
+        | some [h, n] => go ts (off + n) (⟨Fit.Gen.Reader.rawFlagMesgData, Fit.FitFormat.slice bs off n⟩ :: acc) ((off, [h]) :: chk)
+        | _ => none
+      else if t == "C" then go ts (off + 2) (⟨Fit.Gen.Reader.rawFlagCRC, Fit.FitFormat.slice bs off 2⟩ :: acc) chk
+      else none
+  go toks 0 [] []
+
+/-- C16 on the implementation, from its itemised answer.
+First half, for EVERY stream: the reported segments continue the stream (`C16_concat`: the bytes the callback
+saw are the stream's bytes at the running offset; their total is at most the returned count, which is at most the
+stream; equal on success) and have the prescribed lengths (`lengthsOK`, the predicate of `C16_lengths`).
+Second half: whenever the full decoder accepts the stream — every `Decode` succeeds and the sequences it decoded
+cover the stream exactly — the raw decoder accepts it, reports as many sequences and the same ordered series of
+definitions (header byte, architecture, global number, field and developer field definitions) and data messages
+(header byte, hence kind and local message number). -/
 def propRawDec (bs : Bytes) (impl : String) : String :=
   match impl.splitOn " raw=" with
   | [d, r] =>
     if !d.startsWith "dec=" then "fail:answer" else
-    let dtoks := ((d.drop 4).toString.splitOn " ").filter (· ≠ "")
-    match dtoks with
+    let rtoks := (r.splitOn " ").filter (· ≠ "")
+    match rtoks with
     | [] => "fail:answer"
-    | status :: evs =>
-      if status != "end" then "n/a" else
-      match decItems evs with
-      | none => "fail:dec-events"
-      | some (items, total) =>
-        if total != bs.length then "n/a"          -- the loop stopped before the end of the stream: not accepted
-        else
-          let rtoks := (r.splitOn " ").filter (· ≠ "")
-          match rtoks with
-          | [] => "fail:answer"
-          | head :: segs =>
-            match head.splitOn ";" with
-            | [rstatus, n, q] =>
-              if rstatus != "ok" then s!"fail:raw-rejects-{rstatus}"
-              else if n.toNat? != some bs.length then "fail:raw-count"
-              else if q.toNat? != some (items.filter (· == .seqEnd)).length then "fail:sequence-count"
-              else
-                match rawItems segs with
-                | none => "fail:raw-items"
-                | some ritems => if ritems == items then "ok" else "fail:series-differ"
-            | _ => "fail:answer"
+    | head :: segs =>
+      match head.splitOn ";" with
+      | [rstatus, nS, qS] =>
+        match nS.toNat?, qS.toNat?, rebuildSegs bs segs with
+        | some n, some q, some (rsegs, chk) =>
+          let total := (rsegs.map (·.bytes.length)).foldl (· + ·) 0
+          if total > n || n > bs.length then "fail:count"
+          else if rstatus == "ok" && total != n then "fail:count-on-success"
+          else if !(chk.all fun c => Fit.FitFormat.slice bs c.1 c.2.length == c.2) then "fail:concat"
+          else if !Fit.Raw.lengthsOK rsegs then "fail:lengths"
+          else
+            -- second half
+            let dtoks := ((d.drop 4).toString.splitOn " ").filter (· ≠ "")
+            match dtoks with
+            | [] => "fail:answer"
+            | status :: evs =>
+              if status != "end" then "ok" else
+              match decItems evs with
+              | none => "fail:dec-events"
+              | some (items, dtotal) =>
+                if dtotal != bs.length then "ok"          -- the loop stopped before the end of the stream: not accepted
+                else if rstatus != "ok" then s!"fail:raw-rejects-{rstatus}"
+                else if n != bs.length then "fail:raw-count"
+                else if q != (items.filter (· == .seqEnd)).length then "fail:sequence-count"
+                else
+                  match rawItems segs with
+                  | none => "fail:raw-items"
+                  | some ritems => if ritems == items then "ok" else "fail:series-differ"
+        | _, _, _ => "fail:answer"
+      | _ => "fail:answer"
   | _ => "fail:answer"
 
 def hRawDec : Handler := fun r =>
